@@ -122,7 +122,8 @@ impl Report {
             self.sample(s);
         }
         for (k, v) in o.monitors {
-            *self.monitors.entry(k).or_insert(0) += v;
+            let e = self.monitors.entry(k).or_insert(0);
+            *e = e.wrapping_add(v);
         }
         for (k, v) in o.notes {
             self.notes.entry(k).or_insert(v);
